@@ -106,3 +106,15 @@ package path
 //@   ensures result1 == nil && typeis(result0, *scion.Raw) ==> fresh(asptr(result0, *scion.Raw))
 //@   ensures result1 == nil && typeis(result0, *onehop.Path) ==> fresh(asptr(result0, *onehop.Path))
 //@   ensures result1 == nil && typeis(result0, *epic.Path) ==> fresh(asptr(result0, *epic.Path))
+
+//@ # ---- relative expiration times (C23): one unit is MaxTTL/256 = 337.5 s
+//@ func ExpTimeToDuration
+//@   props C23
+//@   modifies nothing
+//@   ensures int64(result) == (int64(expTime)+1)*337500000000
+//@ # the largest expiration time whose duration does not exceed d (rounding DOWN: a hop field never outlives d)
+//@ func ExpTimeFromDuration
+//@   props C23
+//@   modifies nothing
+//@   ensures (result1 == nil) == (int64(d) >= 337500000000 && int64(d) <= 86400000000000)
+//@   ensures result1 == nil ==> (int64(result0)+1)*337500000000 <= int64(d) && int64(d) < (int64(result0)+2)*337500000000
